@@ -195,6 +195,18 @@ fn strat_frag(t: Tier) -> proptest::strategy::BoxedStrategy<crate::fragcase::Fra
     }
 }
 
+fn run_long_frag(ctx: &Ctx) -> SubReport {
+    let mk = |shard: usize, shards: usize| crate::fragcase::long_cases().into_iter().enumerate().filter(move |(i, _)| i % shards.min(4) == shard && shard < 4).map(|(_, c)| c);
+    let mut r = run_enumerated(ctx, "long_sequences", &mk, &eval_frag);
+    r.exhaustive = false;
+    r.notes.push("fixed list: a 70 000-sample segment, 400 two-sample segments with empty flushes, 3 MiB / 1 MiB+1 / empty samples, 255/256/257/65 536 samples per segment".into());
+    r
+}
+fn replay_long_frag(v: &serde_json::Value) -> Result<Outcome, String> {
+    let c: crate::fragcase::FragCase = serde_json::from_value(v.clone()).map_err(|e| e.to_string())?;
+    Ok(eval_frag(&c))
+}
+
 pub fn def() -> PropertyDef {
     PropertyDef {
         fuzz_targets: &["c10_frag"],
@@ -208,6 +220,7 @@ pub fn def() -> PropertyDef {
         subs: vec![
             Box::new(PSub { name: "progressive", quick: 30000, thorough: 800000, strat, eval }),
             Box::new(PSub { name: "fragmented", quick: 20000, thorough: 600000, strat: strat_frag, eval: eval_frag }),
+            Box::new(ESub { name: "long_sequences", run: run_long_frag, replay: replay_long_frag }),
         ],
     }
 }
